@@ -43,7 +43,10 @@
                                       — the pinned parser accepts an altered covered byte (length 0: every image)
   * `encodeFru_is_bytes`              — the encoder produces bytes (offsets / lengths fit their fields)
   * `ascii6_text_exact`               — 6-bit text is reported exactly unless n ≡ 3 (mod 4) (then one space more)
-  * `tables_match_storage_definition` — generated BCD_MAP / constants equal the storage definition's (T tie)
+  * `tables_match_storage_definition` — generated BCD_MAP / constants equal the storage definition's (T tie); the
+                                        guards of the repaired record dispatch are PRESENT (`= some …`)
+  * `source_is_intended_variant`, `parse_encode_today`, `parse_encode_device_today`
+                                      — the five forms the translator reads from today's AST are the intended ones
 -/
 import PyIpmi.Lemmas.FruDevice
 namespace PyIpmi.Props.C15
@@ -327,11 +330,38 @@ theorem tables_match_storage_definition :
     FruTables.powerModuleId = powerModuleId ∧
     FruTables.headerLen = 8 ∧ FruTables.minRecord = 5 ∧
     FruTables.typeBcd = 1 ∧ FruTables.typeSix = 2 ∧
-    -- constants of the repaired record dispatch, when the source has them (`none`: type-only dispatch)
-    FruTables.picmgMfgId.all (· == picmgMfgId) = true ∧
-    FruTables.dispatchMinData.all (· == 10) = true ∧ FruTables.dispatchMinLen.all (· == 5) = true ∧
-    FruTables.picmgMinLen.all (· == 5) = true ∧ FruTables.powerMinLen.all (· == 7) = true := by
+    -- constants of the repaired record dispatch: the source HAS the guards (`none` = type-only dispatch
+    -- would make an `Option.all` statement vacuous) and they carry the storage definition's values
+    FruTables.picmgMfgId = some picmgMfgId ∧
+    FruTables.dispatchMinData = some 10 ∧ FruTables.dispatchMinLen = some 5 ∧
+    FruTables.picmgMinLen = some 5 ∧ FruTables.powerMinLen = some 7 := by
   decide
+
+/-! ### today's source IS the intended variant
+
+`parse_encode*`, `accept_implies_checksums`' strongest form and `alteration_rejected*` are stated for
+`Variant.intended`; the counter-example theorems for the frozen `Variant.asShipped`.  The translator
+(harness/translate/fru.py) reads from the AST of TODAY's fields.py / fru.py which of the two known forms each of
+the five repaired places has (it fails closed on any third form) and the harness additionally probes each of
+them on the running code.  `source_is_intended_variant` equates what was read with `Variant.intended`: a
+regression of any of the five stops the build (and the run then produces the failing image through the
+probe-driven as-shipped streams: BCD+ in an array, a partial 6-bit group, area length 0 / beyond, a foreign C0h
+record). -/
+
+/-- the variant of the parser model that mirrors today's source, as read from its AST -/
+def sourceVariant : Variant :=
+  ⟨FruTables.bcdBytesOnly, FruTables.sixStrict, FruTables.areaLenLax, FruTables.devLenLax, FruTables.picmgTypeOnly⟩
+
+theorem source_is_intended_variant : sourceVariant = Variant.intended := by decide
+
+/-- … hence the headline statements hold for the model of TODAY's source, no variant left to choose. -/
+theorem parse_encode_today (img : FruImage) (k : InputKind) (h : WellFormed img) :
+    parseFru sourceVariant k (encodeFru img) = .ok (view img) := by
+  rw [source_is_intended_variant]; exact parse_encode img k h
+
+theorem parse_encode_device_today (img : FruImage) (tail : List Nat) (h : WellFormed img) :
+    parseFruDevice sourceVariant (encodeFru img ++ tail) = .ok { view img with header := none } := by
+  rw [source_is_intended_variant]; exact parse_encode_device img tail h
 
 /-! ### non-vacuity: a non-trivial image satisfies every hypothesis -/
 
